@@ -53,3 +53,41 @@ package gtab
 //@   loop 0
 //@     invariant a < p && p <= b && b <= len(seq) && ref(seq) == ref(ctx.seq) && off(seq) == off(ctx.seq) && len(seq) == len(ctx.seq)
 //@     decreases b - p
+
+// ---- applying lookups (layout.go) ----
+//@ pred llOK(ctx *Context) = forall i int :: 0 <= i && i < len(ctx.ll) ==> ctx.ll[i] != nil && ctx.ll[i].Meta != nil && forall j int :: 0 <= j && j < len(ctx.ll[i].Subtables) ==> ctx.ll[i].Subtables[j] != nil
+//@ pred keepOK(ctx *Context) = ctx.keep != nil ==> ctx.keep.Meta != nil && ctx.keep.Gdef != nil
+//@ pred stackinv(ctx *Context) = forall k int :: 0 <= k && k < len(ctx.stack) ==> ctx.stack[k] != nil && 0 <= ctx.stack[k].EndPos && ctx.stack[k].EndPos <= len(ctx.seq) && forall i int :: 0 <= i && i < len(ctx.stack[k].InputPos) ==> 0 <= ctx.stack[k].InputPos[i] && ctx.stack[k].InputPos[i] < ctx.stack[k].EndPos
+
+// Assumed contract of the Subtable interface (implementations under contract
+// are checked against the same clauses).
+//@ assume func (s Subtable) apply(ctx *Context, a int, b int) (next int)
+//@   requires ctx != nil && 0 <= a && a < b && b <= len(ctx.seq) && stackinv(ctx) && keepOK(ctx) && llOK(ctx)
+//@   ensures next >= -1 && next <= len(ctx.seq) && stackinv(ctx) && len(ctx.seq) <= 1099511627776
+//@   ensures next < 0 ==> len(ctx.stack) == old(len(ctx.stack)) && len(ctx.seq) == old(len(ctx.seq))
+//@   modifies ctx.seq, ctx.stack, ctx.scratch, all(nested), all(glyph.Info), allelems(int), allelems(*nested), allelems(rune), allelems(SeqLookup)
+
+//@ func newKeepFunc(meta *LookupMetaInfo, gdef *gdef.Table) (k *keepFunc)   props: C07
+//@   requires meta != nil
+//@   ensures k != nil ==> k.Meta == meta && k.Gdef == gdef && gdef != nil && fresh(k)
+//@   modifies nothing
+
+//@ func (ctx *Context) applyAt(ss []Subtable, pos int, b int) (next int)   props: C07 C06
+//@   requires ctx != nil && 0 <= pos && pos < b && b <= len(ctx.seq) && stackinv(ctx) && keepOK(ctx) && llOK(ctx)
+//@   requires forall j int :: 0 <= j && j < len(ss) ==> ss[j] != nil
+//@   ensures next >= -1 && next <= len(ctx.seq) && stackinv(ctx) && len(ctx.seq) <= 1099511627776
+//@   ensures next < 0 ==> len(ctx.stack) == old(len(ctx.stack)) && len(ctx.seq) == old(len(ctx.seq))
+//@   modifies ctx.seq, ctx.stack, ctx.scratch, all(nested), all(glyph.Info), allelems(int), allelems(*nested), allelems(rune), allelems(SeqLookup)
+//@   loop 0
+//@     invariant stackinv(ctx) && keepOK(ctx) && llOK(ctx) && len(ctx.stack) == old(len(ctx.stack)) && len(ctx.seq) == old(len(ctx.seq)) && b <= len(ctx.seq) && pos < b && 0 <= pos
+//@     invariant forall j int :: 0 <= j && j < len(ss) ==> ss[j] != nil
+
+//@ func (ctx *Context) applyAtRecursively(pos int) (next int)   props: C07
+//@   requires ctx != nil && 0 <= pos && pos < len(ctx.seq) && len(ctx.stack) == 0 && keepOK(ctx) && llOK(ctx)
+//@   requires ctx.lookup != nil && forall j int :: 0 <= j && j < len(ctx.lookup.Subtables) ==> ctx.lookup.Subtables[j] != nil
+//@   ensures len(ctx.stack) == 0
+//@   ensures keepOK(ctx) && llOK(ctx) && ctx.lookup == old(ctx.lookup) && ctx.keep == old(ctx.keep) && ctx.ll == old(ctx.ll)
+//@   modifies ctx.seq, ctx.stack, ctx.scratch, ctx.lookup, ctx.keep, all(nested), all(glyph.Info), allelems(int), allelems(*nested), allelems(rune), allelems(SeqLookup)
+//@   loop 0
+//@     invariant stackinv(ctx) && keepOK(ctx) && llOK(ctx) && 1 <= numActions && numActions <= 64 && ctx.lookup == old(ctx.lookup) && ctx.keep == old(ctx.keep) && ctx.ll == old(ctx.ll)
+//@     decreases 64 - numActions, len(ctx.stack)
